@@ -248,10 +248,25 @@ fn rt2_line<S: Serializable + PartialEq, T: Serializable + PartialEq>(x: &S, y: 
         _ => "err".into(),
     }
 }
+/// `all` offsets: every offset for images up to 4096 bytes, otherwise the first 64, the last 64 and 256 evenly
+/// spaced ones (the model driver uses the same rule)
+fn all_offsets(size: usize, inclusive: bool) -> Vec<usize> {
+    let top = if inclusive { size + 1 } else { size };
+    if size <= 4096 {
+        return (0..top).collect();
+    }
+    let mut v: Vec<usize> = (0..64).collect();
+    v.extend((0..256).map(|i| i * size / 256));
+    v.extend(top - 64..top);
+    v.sort();
+    v.dedup();
+    v
+}
+
 /// deserialize every requested strict prefix
 fn trunc_line<S: Serializable>(x: &S, offs: &str) -> Result<String, String> {
     let (b, _) = ser_bytes(x);
-    let offsets: Vec<usize> = if offs == "all" { (0..b.len()).collect() } else { list(offs)? };
+    let offsets: Vec<usize> = if offs == "all" { all_offsets(b.len(), false) } else { list(offs)? };
     let (mut ok, mut err, mut pan) = (0, 0, 0);
     let mut first_bad: Option<usize> = None;
     for &k in &offsets {
@@ -284,7 +299,7 @@ fn sched_line<S: Serializable + PartialEq>(x: &S, sc: &str) -> Result<String, St
 /// serialize into writers failing after each requested number of bytes
 fn wfail_line<S: Serializable>(x: &S, offs: &str, sc: &str) -> Result<String, String> {
     let (b, _) = ser_bytes(x);
-    let offsets: Vec<usize> = if offs == "all" { (0..=b.len()).collect() } else { list(offs)? };
+    let offsets: Vec<usize> = if offs == "all" { all_offsets(b.len(), true) } else { list(offs)? };
     let sc = sched(sc)?;
     let (mut ok, mut err, mut pan, mut prefix_ok) = (0, 0, 0, true);
     let mut first_bad: Option<usize> = None;
